@@ -119,6 +119,12 @@ pub fn render_lines(_args: &[String]) -> String {
             tried += 1;
             let got: Vec<String> = lines.iter().map(|l| l.1.clone()).collect();
             let all_bars = lines.iter().all(|l| l.0);
+            if got == want && !all_bars {
+                let b: Vec<String> = lines.iter().map(|l| format!("{}:{}", if l.0 { "bar" } else { "text" }, l.1)).collect();
+                let b: Vec<&str> = b.iter().map(String::as_str).collect();
+                return format!("{{\"found\": true, \"clause\": \"C01/C19 every line a style renders is a bar line (one of the rows the next draw erases), also an empty one\", \"tried\": {}, \"input\": {{\"template\": {}, \"msg\": {}, \"rendered\": {}}}, \"rerun\": \"replay render_lines\"}}",
+                    tried, crate::js(t), crate::js(m), crate::jlist(&b));
+            }
             if got != want || !all_bars || got.iter().any(|g| g.contains('\n')) {
                 let a: Vec<&str> = want.iter().map(String::as_str).collect();
                 let b: Vec<&str> = got.iter().map(String::as_str).collect();
@@ -166,26 +172,6 @@ pub fn render_wide(_args: &[String]) -> String {
                 }
             }
         }
-        // {bar:N} with two-column progress characters: whole cells, padded to exactly N columns like every other field
-        if width == 80 {
-            for n in [1usize, 2, 3, 4, 5, 7, 10, 11] {
-                for al in ["", "<", ">", "^"] {
-                    let t = format!("[{{bar:{}{}}}]|{{pos}}", al, n);
-                    let style = ProgressStyle::with_template(&t).unwrap().progress_chars("\u{ff03}\u{ff1e}\u{ff0d}");
-                    for (pos, len) in [(0u64, 10u64), (5, 10), (10, 10)] {
-                        let f = frame(&style, Some(len), pos, "", "", 0, 0, width);
-                        tried += 1;
-                        let line = f.lines.get(0).map(|l| l.1.clone()).unwrap_or_default();
-                        let tail = format!("]|{}", pos);
-                        let ok = f.lines.len() == 1 && line.starts_with('[') && line.ends_with(&tail) && text_cols(&line) == n + 1 + tail.len();
-                        if !ok {
-                            return format!("{{\"found\": true, \"clause\": \"C12 a {{bar:N}} field of two-column characters occupies exactly N columns (whole cells plus padding)\", \"tried\": {}, \"input\": {{\"template\": {}, \"pos\": {}, \"len\": {}, \"expected_columns\": {}, \"rendered\": {}}}, \"rerun\": \"replay render_wide\"}}",
-                                tried, crate::js(&t), pos, len, n + 1 + tail.len(), crate::js(&line));
-                        }
-                    }
-                }
-            }
-        }
         // a width field whose content is wider than the field, next to a wide element: the line is still exactly as wide as the terminal
         if width >= 40 {
             for (t, m) in [("{msg:8} [{wide_bar}] {pos}/{len}", "downloading"), ("{pos:>1}/{len:1} {wide_bar}|", ""), ("{msg:3}{wide_bar}", "abcdefghij")] {
@@ -228,6 +214,36 @@ pub fn render_wide(_args: &[String]) -> String {
                     tried, crate::js(t), width, crate::js(msg), crate::jlist(&got));
             }
         }
+    }
+    format!("{{\"found\": false, \"tried\": {}}}", tried)
+}
+
+/// C12: wide_msg is a truncating field as wide as the rest of the line; {bar:N} is a field of exactly N columns.
+pub fn render_widemsg(_args: &[String]) -> String {
+    std::panic::set_hook(Box::new(|_| {}));
+    use indicatif::verif_hooks::style::text_cols;
+    let mut tried = 0u64;
+    for width in [10u16, 11, 20, 80] {
+        // {bar:N} with two-column progress characters: whole cells, padded to exactly N columns like every other field
+        if width == 80 {
+            for n in [1usize, 2, 3, 4, 5, 7, 10, 11] {
+                for al in ["", "<", ">", "^"] {
+                    let t = format!("[{{bar:{}{}}}]|{{pos}}", al, n);
+                    let style = ProgressStyle::with_template(&t).unwrap().progress_chars("\u{ff03}\u{ff1e}\u{ff0d}");
+                    for (pos, len) in [(0u64, 10u64), (5, 10), (10, 10)] {
+                        let f = frame(&style, Some(len), pos, "", "", 0, 0, width);
+                        tried += 1;
+                        let line = f.lines.get(0).map(|l| l.1.clone()).unwrap_or_default();
+                        let tail = format!("]|{}", pos);
+                        let ok = f.lines.len() == 1 && line.starts_with('[') && line.ends_with(&tail) && text_cols(&line) == n + 1 + tail.len();
+                        if !ok {
+                            return format!("{{\"found\": true, \"clause\": \"C12 a {{bar:N}} field of two-column characters occupies exactly N columns (whole cells plus padding)\", \"tried\": {}, \"input\": {{\"template\": {}, \"pos\": {}, \"len\": {}, \"expected_columns\": {}, \"rendered\": {}}}, \"rerun\": \"replay render_widemsg\"}}",
+                                tried, crate::js(&t), pos, len, n + 1 + tail.len(), crate::js(&line));
+                        }
+                    }
+                }
+            }
+        }
         for msg in ["", "hi", "hello world, this is a long message that does not fit"] {
             for (t, trailing, al) in [("ab{wide_msg}cd", false, '<'), ("x{wide_msg}", true, '<'), ("{pos} {wide_msg}", true, '<'),
                                       ("ab{wide_msg:>}cd", false, '>'), ("x{wide_msg:>}", true, '>'), ("x{wide_msg:^}", true, '^'), ("ab{wide_msg:^}cd", false, '^')] {
@@ -251,8 +267,28 @@ pub fn render_wide(_args: &[String]) -> String {
                 let ok = f.lines.len() == 1 && f.lines[0].1 == want;
                 if !ok {
                     let got: Vec<&str> = f.lines.iter().map(|l| l.1.as_str()).collect();
-                    return format!("{{\"found\": true, \"clause\": \"C12 wide_msg shows the message padded / truncated to the free columns\", \"tried\": {}, \"input\": {{\"template\": {}, \"width\": {}, \"msg\": {}, \"expected\": {}, \"rendered\": {}}}, \"rerun\": \"replay render_wide\"}}",
+                    return format!("{{\"found\": true, \"clause\": \"C12 wide_msg shows the message padded / truncated to the free columns\", \"tried\": {}, \"input\": {{\"template\": {}, \"width\": {}, \"msg\": {}, \"expected\": {}, \"rendered\": {}}}, \"rerun\": \"replay render_widemsg\"}}",
                         tried, crate::js(t), width, crate::js(msg), crate::js(&want), crate::jlist(&got));
+                }
+            }
+        }
+        // next to a field whose content overflows its width (emitted unshortened), and on a later line of a multi-line
+        // template: wide_msg still takes exactly the columns the rest of ITS line leaves free
+        if width >= 20 {
+            let long = "hello world, this is a long message that does not fit, not even on the widest of the terminals used here";
+            for (t, pfx, fixed) in [("{prefix:3}|{wide_msg}|", "abcdef", 8usize), ("{prefix:>2}{wide_msg}|", "abcd", 5), ("{prefix} {pos}/{len}\n{wide_msg}|", "a-prefix-of-some-length", 1),
+                                    ("{wide_msg}|\n{wide_msg}]", "", 1)] {
+                let style = ProgressStyle::with_template(t).unwrap();
+                let f = frame(&style, Some(10), 3, long, pfx, 0, 0, width);
+                tried += 1;
+                let nl = t.split('\n').count();
+                let last = f.lines.last().map(|l| l.1.clone()).unwrap_or_default();
+                let shown: String = long.chars().take(width as usize - fixed).collect();
+                let ok = f.lines.len() == nl && text_cols(&last) == width as usize && last.contains(&shown) && !last.contains(&long[..width as usize - fixed + 1]);
+                if !ok {
+                    let got: Vec<&str> = f.lines.iter().map(|l| l.1.as_str()).collect();
+                    return format!("{{\"found\": true, \"clause\": \"C12 wide_msg is truncated to exactly the columns the rest of its line leaves free (overflowing fields counted as emitted, other template lines not counted)\", \"tried\": {}, \"input\": {{\"template\": {}, \"prefix\": {}, \"width\": {}, \"rendered\": {}}}, \"rerun\": \"replay render_widemsg\"}}",
+                        tried, crate::js(t), crate::js(pfx), width, crate::jlist(&got));
                 }
             }
         }
